@@ -303,14 +303,21 @@ def run_job(ctx, job):
             p["canary"] = True
         else:
             p["canary"] = False
-            if p["status"] == "FAILURE":
+            if p["status"] == "FAILURE" and "TOOL-LIMIT" in desc:
+                # an ENV model met something it does not model (e.g. an unknown printf format): nothing is known about the code -> undecided, never a violation
+                p["status"] = "TOOL-LIMIT"
+                unknown.append(p)
+            elif p["status"] == "FAILURE":
                 p["trace"] = r.get("trace")
                 job.failed.append(p)
             elif p["status"] != "SUCCESS":
                 unknown.append(p)
         job.props.append(p)
     n = len([p for p in job.props if not p["canary"]])
-    if job.failed:
+    if any(p["status"] == "TOOL-LIMIT" for p in unknown):
+        job.failed = []
+        job.status, job.reason = "undecided", "model limit reached: %s" % [p["description"] for p in unknown if p["status"] == "TOOL-LIMIT"][0]
+    elif job.failed:
         job.status = "fail"       # UNKNOWN statuses next to a FAILURE are its consequences (CBMC assumes a failed check afterwards)
     elif unknown:
         job.status, job.reason = "undecided", "property %s status %s" % (unknown[0]["name"], unknown[0]["status"])
